@@ -3,6 +3,7 @@ package eval
 import (
 	"errors"
 	"fmt"
+	"reflect"
 	"strconv"
 	"strings"
 	"time"
@@ -310,7 +311,26 @@ func (c comparison) execute(_ *Ctx, params []Value) (Value, error) {
 	}
 }
 
+// errIfUncomparable rejects operands such as lists and sets:
+// comparing two of them with == would panic.
+func errIfUncomparable(m mode, params []Value) error {
+	for _, p := range params {
+		switch p.(type) {
+		case nil, bool, int64, string:
+			continue
+		}
+		if !reflect.TypeOf(p).Comparable() {
+			return ParamTypeError(modeNames[m], "comparable value", p)
+		}
+	}
+	return nil
+}
+
 func comparisonEquals(_ *Ctx, params []Value) (Value, error) {
+	if err := errIfUncomparable(equals, params); err != nil {
+		return nil, err
+	}
+
 	if len(params) == 2 {
 		return params[0] == params[1], nil
 	}
@@ -331,6 +351,10 @@ func comparisonEquals(_ *Ctx, params []Value) (Value, error) {
 func comparisonNotEquals(_ *Ctx, params []Value) (Value, error) {
 	if len(params) != 2 {
 		return nil, errCnt2(notEquals, params)
+	}
+
+	if err := errIfUncomparable(notEquals, params); err != nil {
+		return nil, err
 	}
 
 	return params[0] != params[1], nil
